@@ -122,11 +122,15 @@ CHECKS = {
          "is dropped exactly once, on the home thread; the output is taken by the handle or dropped exactly once; the join-waker "
          "slot is never read/dropped uninitialised, never overwritten without a drop, never entered by two threads at once; the "
          "allocation is freed exactly once, after the last reference, and never touched afterwards; none of the code's "
-         "debug_assert!s fires; a join handle that returned Pending is woken when the task completes.",
+         "debug_assert!s fires; a join handle that returned Pending is woken when the task completes; a task whose handle was "
+         "dropped or cancelled (from any thread) is scheduled once more so that its future is dropped; with the executor torn "
+         "down at a solver-chosen tick nothing touches its Shared block afterwards — except in the configurations of known "
+         "finding F20 (two concurrent remote schedulers), reported as KNOWN-FINDING.",
     design_ref="DESIGN.md §1 C04",
-    note="Outside: Executor::clear/drop (teardown while wakers are used elsewhere), queue.rs (hot/cold lists, max_interval "
-         "fairness / starvation), panicking futures, more than one task, weak memory. Multi-operation programs are context-bounded "
-         "(2 preemptions quick, 3 thorough). One genuine defect found here was repaired (remote join lost wake-up, /repo fb8da0d)."),
+    note="Outside: queue.rs (hot/cold lists, max_interval fairness / starvation), panicking futures, more than one task, weak "
+         "memory. Schedules are context-bounded (2 preemptions quick, 3 thorough). Two genuine defects found here were repaired "
+         "(/repo fb8da0d remote join lost wake-up, 8fff3bc cancellation from another thread missed); F20 (teardown "
+         "use-after-free with two concurrent remote schedulers) is recorded in known_findings.json."),
  "C08": dict(
     engine="kani",
     technique="bounded model checking of the compiled op implementations of both drivers in one build (Kani/CBMC): "
@@ -209,7 +213,8 @@ CHECKS = {
          "spawned worker a logical thread, idle timeouts either long or arbitrary: "
          "jobs running at once never exceed the limit, every accepted job runs exactly once, a rejected job comes back intact and "
          "does not run, no dispatcher gets stuck, a job submitted after workers retired still runs; the same with two concurrent "
-         "dispatchers and with idle timeouts that may fire at any moment.",
+         "dispatchers and with idle timeouts that may fire at any moment; when a job panics (unwinding through the worker's "
+         "cleanup blocks) its slot is released: a submission is rejected only while live workers + reserved slots >= limit.",
     design_ref="DESIGN.md §1 C17",
     note="flume, thread::spawn, Box/Arc plumbing are assumptions (coverage.summaries); SC atomics; panic transport and the "
          "driver's completion channel are outside. Two genuine defects found here were repaired (/repo 186dec9, db2ede8)."),
@@ -222,7 +227,9 @@ CHECKS = {
          "set of live handles satisfying the ownership invariant, pop() hands out exactly the free buffer at the queue's front with "
          "len 0 / full capacity and never one that a live handle holds, reports exhaustion as an error exactly when nothing is free "
          "(no panic, no wait); dropping a handle returns exactly its buffer to its slot and its id to the queue once; a handle "
-         "outliving the pool frees its own memory exactly once; present slots + live handles = N after every step; "
+         "outliving the pool frees its own memory exactly once; BufferPoolRoot::release frees every pooled buffer once, leaves held "
+         "ones alone and leaves no slot behind (a handle dropped afterwards frees its own memory); present slots + live handles "
+         "= N after every step; "
          "set_capacity/set_len keep len <= cap <= full_cap and the views expose exactly cap / len bytes of the handle's own buffer.",
     design_ref="DESIGN.md §1 C07",
     note="Only the fallback (polling) pool: the io_uring buffer ring (mmap, register_buf_ring, kernel buffer selection), the managed "
